@@ -75,6 +75,10 @@ type c13Crash struct {
 	Site  string `json:"site"`  // first easegress frame below the panic
 	Msg   string `json:"msg"`
 	Req   int    `json:"req"`
+	// Frames: the function names on the stack at recover time, innermost first (easegress
+	// prefix trimmed, runtime.* dropped). A panic raised in a deferred function while another
+	// panic unwinds hides the first one's value; its frames are still on the stack.
+	Frames []string `json:"frames"`
 }
 
 type c13Str struct {
@@ -169,6 +173,32 @@ func c13Site(stack string) string {
 	return "?"
 }
 
+func c13Frames(stack string) []string {
+	const pre = "github.com/megaease/easegress/pkg/"
+	out := []string{}
+	for _, ln := range strings.Split(stack, "\n") {
+		if ln == "" || ln[0] == '\t' || strings.HasPrefix(ln, "goroutine ") || strings.HasPrefix(ln, "runtime.") ||
+			strings.HasPrefix(ln, "runtime/debug.") || strings.HasPrefix(ln, "panic(") || strings.HasPrefix(ln, "created by") {
+			continue
+		}
+		if strings.Contains(ln, "verifh") || strings.Contains(ln, ".c13") || strings.Contains(ln, "testing.") {
+			continue
+		}
+		f := strings.TrimPrefix(ln, pre)
+		if i := strings.LastIndexByte(f, '('); i > 0 {
+			f = f[:i]
+		}
+		if len(out) > 0 && out[len(out)-1] == f {
+			continue
+		}
+		out = append(out, f)
+		if len(out) >= 30 {
+			break
+		}
+	}
+	return out
+}
+
 func c13Try(phase string, req int, f func()) (c *c13Crash) {
 	defer func() {
 		if p := recover(); p != nil {
@@ -183,7 +213,7 @@ func c13Try(phase string, req int, f func()) (c *c13Crash) {
 			if phase == "Inherit" && strings.Contains(st, "InjectResiliencePolicy") {
 				phase = "Inject"
 			}
-			c = &c13Crash{Phase: phase, Site: c13Site(st), Msg: msg, Req: req}
+			c = &c13Crash{Phase: phase, Site: c13Site(st), Msg: msg, Req: req, Frames: c13Frames(st)}
 		}
 	}()
 	f()
@@ -280,10 +310,10 @@ func c13Exec(raw json.RawMessage) interface{} {
 		obs.Crash = c
 		return obs
 	}
-	if c13MirrorHazard(in.Spec) {
-		// Proxy.Handle runs the mirror pool in its own goroutine: rand.Intn(0) there cannot be
-		// recovered and kills the whole process (weightedRandom with total weight <= 0, C04).
-		obs.Err = "handle-skipped: mirror pool weightedRandom with non-positive total weight"
+	if c13MirrorIllTyped(in.Spec) {
+		// Proxy.Handle runs the mirror pool in its own goroutine, where a panic cannot be
+		// recovered; never generated (nulls are not injected below mirrorPool), replay only.
+		obs.Err = "handle-skipped: mirrorPool is not an object"
 		c13Try("Close", -1, func() { p.Close() })
 		return obs
 	}
@@ -317,35 +347,24 @@ func c13Exec(raw json.RawMessage) interface{} {
 	return obs
 }
 
-func c13MirrorHazard(spec c13M) bool {
+func c13MirrorIllTyped(spec c13M) bool {
 	fs, _ := spec["filters"].([]interface{})
 	for _, f := range fs {
 		fm, _ := f.(map[string]interface{})
-		mp, ok := fm["mirrorPool"].(map[string]interface{})
+		mp, present := fm["mirrorPool"]
+		if !present {
+			continue
+		}
+		mm, ok := mp.(map[string]interface{})
 		if !ok {
-			if _, present := fm["mirrorPool"]; present {
-				return true // null / ill-typed mirror pool: do not run it in a goroutine
-			}
-			continue
-		}
-		lb, _ := mp["loadBalance"].(map[string]interface{})
-		if pol, _ := lb["policy"].(string); pol != "weightedRandom" {
-			continue
-		}
-		total := int64(0)
-		svs, _ := mp["servers"].([]interface{})
-		for _, sv := range svs {
-			sm, ok := sv.(map[string]interface{})
-			if !ok {
-				return true
-			}
-			if n, ok := sm["weight"].(json.Number); ok {
-				w, _ := n.Int64()
-				total += w
-			}
-		}
-		if len(svs) > 0 && total <= 0 {
 			return true
+		}
+		if svs, ok := mm["servers"].([]interface{}); ok {
+			for _, sv := range svs {
+				if _, ok := sv.(map[string]interface{}); !ok {
+					return true
+				}
+			}
 		}
 	}
 	return false
